@@ -288,6 +288,9 @@ def run(ctx):
             # every name looked up in that set by this function
             lookups = [x for x in f.calls("orc_opcode_set_find_by_name")]
             bad = [x for x in lookups if not names_ok(f, x.args()[1])]
+            # "built-in set first, then every set" is not a restriction: the same name also goes to the all-sets lookup
+            if bad and all(any(unparse(strip_casts(y.args()[0])) == unparse(strip_casts(x.args()[1])) for y in f.calls("orc_opcode_find_by_name") if y.args()) for x in bad):
+                bad = []
             indexed = [x for x in f.walk() if x.k == "ArraySubscriptExpr" and (access_path(x.c[0]) or "").endswith("->opcodes") and strip_casts(x.c[1]).v is None
                        and not lookups]
             # the bytecode format can only number opcodes of the built-in table (format limitation, C13); a TEXT program names its
